@@ -14,7 +14,7 @@ use vcore::par::par_indices;
 use vcore::rterm::{self, Enumerator, RTerm};
 
 #[derive(Default)]
-struct Local {
+pub struct Local {
     cases: u64,
     ref_steps: u64,
     ok: u64,
